@@ -3,6 +3,7 @@ CONSTANTS
   Fix = {"tail", "suffix", "epoch"}
   Taints = {}
   GenMode = TRUE
+  MaxSkip = 0
   MaxOps = 4
   MaxPost = 0
   MaxRecs = 5
